@@ -29,12 +29,12 @@ theorem ids_below_sequences (strict : Bool) (ops : List Op) :
 
 /-- One more operation — whatever it is, whatever fault hits it — keeps all of
     this (so ids issued later are above every id issued before). -/
-theorem ids_step (strict : Bool) (s : State) (op : Op) (f : Option Fault) (cf : Bool) (h : Inv s.db s.seq) :
+theorem ids_step (strict : Bool) (s : State) (op : Op) (f : Faults) (cf : Bool) (h : Inv s.db s.seq) :
     Inv (stepF strict s op f cf).1.db (stepF strict s op f cf).1.seq :=
   forgeLog_inv strict op f cf s h
 
 /-- Sequences are never rolled back: a failed write may leave a gap, never a reuse. -/
-theorem sequences_never_decrease (strict : Bool) (s : State) (op : Op) (f : Option Fault) (cf : Bool) :
+theorem sequences_never_decrease (strict : Bool) (s : State) (op : Op) (f : Faults) (cf : Bool) :
     s.seq.tx ≤ (stepF strict s op f cf).1.seq.tx ∧ s.seq.log ≤ (stepF strict s op f cf).1.seq.log := by
   unfold stepF
   rcases forgeLog_ending strict op f cf s with ⟨_, hs, _⟩ | ⟨st0, st, log, hn, f', n, _, _, hs0, hrun, hc⟩
